@@ -25,8 +25,18 @@ pub uninterp spec fn ol_prefix(i: i64) -> Seq<char>;
 pub open spec fn spaces(n: nat) -> Seq<char> { Seq::new(n, |i: int| ' ') }
 pub open spec fn maxn(a: nat, b: nat) -> nat { if a >= b { a } else { b } }
 pub open spec fn sat_add(a: i64, b: i64) -> i64 { if a + b > i64::MAX { i64::MAX } else if a + b < i64::MIN { i64::MIN } else { (a + b) as i64 } }
-// the common marker width of an ordered list (C07): the wider of the first and the last marker
-pub open spec fn ol_width(start: i64, n: usize) -> nat { maxn(sw(ol_prefix(start)), sw(ol_prefix(sat_add(start, ((n as i64) - 1) as i64)))) }
+// the common marker width of an ordered list, from the property (C07, C16): the widest marker of the list — of ALL its items, whatever
+// strings the decorator returns (roman numerals are widest in the middle of a list: D25)
+pub open spec fn ol_width(start: i64, n: usize) -> nat decreases n {
+    if n == 0 { 0 } else { maxn(ol_width(start, (n - 1) as usize), sw(ol_prefix(sat_add(start, (n - 1) as i64)))) }
+}
+pub proof fn lemma_ol_width_covers(start: i64, n: usize, k: usize)
+    requires k < n,
+    ensures sw(ol_prefix(sat_add(start, k as i64))) <= ol_width(start, n),
+    decreases n
+{
+    if k + 1 < n { lemma_ol_width_covers(start, (n - 1) as usize, k); }
+}
 pub assume_specification [ i64::abs ] (a: i64) -> (r: i64) requires a != i64::MIN ensures r == (if a >= 0 { a as int } else { -(a as int) });
 pub assume_specification [ i64::unsigned_abs ] (a: i64) -> (r: u64) ensures r == (if a >= 0 { a as int } else { -(a as int) });
 pub assume_specification [ i64::saturating_add ] (a: i64, b: i64) -> (r: i64) ensures r == sat_add(a, b);
@@ -178,26 +188,27 @@ fn dd_slice(renderer: &SubRenderer, size_estimate: SizeEstimate) -> (r: Result<S
 //@name ol_width_slice
 //@auto C01 C07 C16
 //@sub /items\.len\(\)/ ==> items_len
-//@sub /max\(prefix_width_min, prefix_width_max\)/ ==> prefix_width_min.max(prefix_width_max)
+//@sub /(?s)prefix_width = max\(\s*prefix_width,\s*UnicodeWidthStr::width\(renderer\.ordered_item_prefix\(number\)\.as_str\(\)\),\s*\);/ ==> prefix_width = prefix_width.max(UnicodeWidthStr::width(renderer.ordered_item_prefix(number).as_str()));
+//@sub /let mut prefix_width = 0;/ ==> let mut prefix_width: usize = 0;
 //@sub /format!\("\{: <width\$\}", "", width = prefix_width\)/ ==> spaces_string(prefix_width)
 fn ol_width_slice(renderer: &mut SubRenderer, start: i64, items_len: usize) -> (r: (usize, String)) //@w[
     requires items_len <= 0x7fff_ffff_ffff_ffff,   // a Vec never holds more than isize::MAX elements //@w
     ensures //@w
-        // all markers of one list are padded to a common width: the wider of the first and the last marker (C07) //@w
-        r.0 == ol_width(start, items_len), //@w @C07 @C02 #ol_common_marker_width
+        // all markers of one list are padded to a common width: the widest marker of the list (C07) //@w
+        r.0 == ol_width(start, items_len), //@w @C07 @C02 @C16 #ol_common_marker_width
         r.1@ == spaces(r.0 as nat), //@w @C07 #ol_continuation_indent
 { //@w]
             let num_items = items_len;
 
-            // The prefix width could be at either end if the start is negative.
-            let min_number = start;
-            // Assumption: num_items can't overflow isize.
-            let max_number = start.saturating_add((num_items as i64) - 1);
-            let prefix_width_min =
-                UnicodeWidthStr::width(renderer.ordered_item_prefix(min_number).as_str());
-            let prefix_width_max =
-                UnicodeWidthStr::width(renderer.ordered_item_prefix(max_number).as_str());
-            let prefix_width = prefix_width_min.max(prefix_width_max);
+            // The widest marker can be anywhere in the list (negative start,
+            // decorators which don't number in decimal), so look at all of them.
+            let mut prefix_width: usize = 0;
+            for k in 0..num_items
+                invariant prefix_width == ol_width(start, k), num_items == items_len, items_len <= 0x7fff_ffff_ffff_ffff, //@w @C07 @C16 #ol_common_marker_width
+            {
+                let number = start.saturating_add(k as i64);
+                prefix_width = prefix_width.max(UnicodeWidthStr::width(renderer.ordered_item_prefix(number).as_str()));
+            }
             let prefixn = spaces_string(prefix_width);
     (prefix_width, prefixn) //@w
 } //@w
@@ -242,20 +253,22 @@ fn ol_marker_slice(renderer: &mut SubRenderer, i: &i64, prefix_width: usize) -> 
 //@item src/lib.rs :: fn calc_ol_prefix_size
 //@auto C01 C07 C16
 //@sub /-> usize/ ==> -> (r: usize)
-//@sub /max\(prefix_width_min, prefix_width_max\)/ ==> prefix_width_min.max(prefix_width_max)
+//@sub /(?s)prefix_width = max\(\s*prefix_width,\s*UnicodeWidthStr::width\(decorator\.ordered_item_prefix\(number\)\.as_str\(\)\),\s*\);/ ==> prefix_width = prefix_width.max(UnicodeWidthStr::width(decorator.ordered_item_prefix(number).as_str()));
+//@sub /let mut prefix_width = 0;/ ==> let mut prefix_width: usize = 0;
 fn calc_ol_prefix_size<D: TextDecorator>(start: i64, num_items: usize, decorator: &D) -> (r: usize)
     requires num_items <= 0x7fff_ffff_ffff_ffff, //@w
-    ensures r == ol_width(start, num_items), //@w @C07 @C02 #estimate_uses_same_marker_width
+    ensures r == ol_width(start, num_items), //@w @C07 @C02 @C16 #estimate_uses_same_marker_width
 {
-    // The prefix width could be at either end if the start is negative.
-    let min_number = start;
-    // Assumption: num_items can't overflow isize.
-    let max_number = start.saturating_add((num_items as i64) - 1);
-
-    // This assumes that the decorator gives the same width as default.
-    let prefix_width_min = UnicodeWidthStr::width(decorator.ordered_item_prefix(min_number).as_str());
-    let prefix_width_max = UnicodeWidthStr::width(decorator.ordered_item_prefix(max_number).as_str());
-    prefix_width_min.max(prefix_width_max)
+    // The widest marker can be anywhere in the list (negative start, decorators
+    // which don't number in decimal), so look at all of them.
+    let mut prefix_width: usize = 0;
+    for k in 0..num_items
+        invariant prefix_width == ol_width(start, k), num_items <= 0x7fff_ffff_ffff_ffff, //@w @C07 @C16 #estimate_uses_same_marker_width
+    {
+        let number = start.saturating_add(k as i64);
+        prefix_width = prefix_width.max(UnicodeWidthStr::width(decorator.ordered_item_prefix(number).as_str()));
+    }
+    prefix_width
 }
 //@end
 
